@@ -221,6 +221,7 @@ func checkC11(c *Ctx) {
 		}
 	}
 	flowC11(c)
+	c.Run.Advisory("R3.isnetid-flow", "R3.isnetid")
 	c11TextE1(c)
 }
 
